@@ -76,6 +76,18 @@ fn oracle(c: &Case, st: &mut Stats) -> Result<(), String> {
         if c.verifiable && !Client::verify(&server.get_public_key(), &blinded, &ev, md) {
           return Err(format!("honest verifiable evaluation rejected (tag {md})"));
         }
+        // part of the requests persist the blinding factor while the request is in flight:
+        // Scalar -> 32 bytes -> CurveScalar (even requests), Scalar -> CurveScalar (every third)
+        let r = if rq % 2 == 1 {
+          let sc: Scalar = r.into();
+          st.class("blinding-persisted-as-bytes");
+          ppoprf::ppoprf::CurveScalar::from(sc.to_bytes())
+        } else if rq % 3 == 2 {
+          let sc: Scalar = r.into();
+          ppoprf::ppoprf::CurveScalar::from(sc)
+        } else {
+          r
+        };
         let unblinded = Client::unblind(&ev.output, &r);
         // the server's evaluation of the unblinded input point
         let direct = server.eval(&h, md, false).map_err(|e| e.to_string())?;
